@@ -194,11 +194,13 @@ def is_abstract(s, tname):
 # the family F
 
 SECT_DT_WRAP = "vz.harness.dt.wrap"
+SECT_DT_WRAP2 = "vz.harness.dt.wrap2"
 SECT_DT_REJECT = "vz.harness.dt.reject_lk_x"
 
 
-def type_env(nimpl=2, l1_required=False, l1_datatype=None, keytype=None, lk_handler=None):
-    """The fixed type environment E of every family member."""
+def type_env(nimpl=2, l1_required=False, l1_datatype=None, keytype=None, lk_handler=None, impl_dt=False):
+    """The fixed type environment E of every family member.  impl_dt: the implementers of 'a' carry DIFFERENT
+    section datatypes (i1 wrap, i2 - which extends i1 - wrap2, i3 and e1 as inherited / none)."""
     l1_items = [Key("lk", default="d", handler=lk_handler)]
     if l1_required:
         l1_items.append(Key("rk", required=True))
@@ -207,8 +209,10 @@ def type_env(nimpl=2, l1_required=False, l1_datatype=None, keytype=None, lk_hand
         AType("a"),
         SType("l1", tuple(l1_items), keytype=keytype, datatype=l1_datatype),
         SType("l2", (Key("lk2", datatype="integer", default="5"),), extends="l1"),
-        SType("i1", (Key("ik"),), implements="a" if "i1" in impl else None, keytype=keytype),
-        SType("i2", (), extends="i1", implements="a" if "i2" in impl else None),
+        SType("i1", (Key("ik"),), implements="a" if "i1" in impl else None, keytype=keytype,
+              datatype=SECT_DT_WRAP if impl_dt else None),
+        SType("i2", (), extends="i1", implements="a" if "i2" in impl else None,
+              datatype=SECT_DT_WRAP2 if impl_dt else None),
         SType("i3", (MultiKey("im"),), implements="a" if "i3" in impl else None, keytype=keytype),
         SType("e1", (), extends="i1"),
     )
@@ -231,10 +235,16 @@ def item_menu(full=False):
     menu.append(("pluskey", lambda p: Key("+", attribute="w%d" % p)))
     menu.append(("pluskey-defaults", lambda p: Key("+", attribute="w%d" % p, default=(("Da", "x"), ("db", "y")))))
     menu.append(("pluskey-required", lambda p: Key("+", attribute="w%d" % p, required=True)))
+    # required AND defaults on a wildcard map: the map must still be filled by the text (the statement's "every
+    # required ... wildcard map ... is filled"); the plain-multikey counterpart stays unspecified (DESIGN C01 u4)
+    menu.append(("pluskey-required-defaults",
+                 lambda p: Key("+", attribute="w%d" % p, required=True, default=(("Da", "x"), ("db", "y")))))
     menu.append(("plusmultikey", lambda p: MultiKey("+", attribute="w%d" % p)))
     menu.append(("plusmultikey-defaults",
                  lambda p: MultiKey("+", attribute="w%d" % p, defaults=(("Da", "x"), ("db", "y"), ("da", "z")))))
     menu.append(("plusmultikey-required", lambda p: MultiKey("+", attribute="w%d" % p, required=True)))
+    menu.append(("plusmultikey-required-defaults",
+                 lambda p: MultiKey("+", attribute="w%d" % p, required=True, defaults=(("Da", "x"), ("db", "y")))))
     types = ["l1", "l2", "a"] if full else ["l1", "a"]
     for ty in types:
         for req in (False, True):
